@@ -6,6 +6,7 @@ import "sync"
 
 // Verification hooks (see verif_sched_on.go). Without the "verif" build tag they are empty and inlined away.
 
+func verifIter(any)                  {}
 func verifYield(string)              {}
 func verifMuLock(*sync.Mutex)        {}
 func verifMuUnlocked(*sync.Mutex)    {}
